@@ -14,6 +14,7 @@ from verifkit import Infra, read_ndjson, write_ndjson
 
 KEYS = ["stor", "bal", "alive", "logs", "masters", "xfers", "flags", "frames", "ncreate"]
 KNOWN_SD = "selfdestruct-immediate-delete"
+KNOWN_C2 = "create2-collision-empty-code"
 _built = {}
 
 
@@ -399,6 +400,10 @@ def compare_mem(b, obs):
     got = {k: obs.get(k) for k in MEMKEYS}
     if got == exp:
         return None, None
+    if "thor" in b and got == mem_expected(b["thor"]):
+        return KNOWN_C2, ("a CREATE2 to an address whose first creation deployed EMPTY code succeeds again (thor has no account nonces, "
+                          "the collision test looks at code only) and its constructor runs over the first one's storage; the reference "
+                          "(EIP-684 with EIP-161's nonce 1) fails the second creation")
     diff = [k for k in MEMKEYS if got[k] != exp[k]]
     k = diff[0]
     e, g = exp[k], got[k]
@@ -463,6 +468,8 @@ def replay_mem_programs(ctx, raw_behs, label, stats):
                 if stats["conform"] % 3001 == 7 and len(obs["frames"]) >= 2:
                     ctx.sample({"memory_program": b["prog"], "outcome_spec_and_real_evm": {k: obs[k] for k in MEMKEYS}}, limit=7)
                 continue
+            if sig == KNOWN_C2:
+                stats["known_c2"] = stats.get("known_c2", 0) + 1
             ent = found.setdefault(sig, {"n": 0, "first": None})
             ent["n"] += 1
             if ent["first"] is None:
@@ -471,7 +478,7 @@ def replay_mem_programs(ctx, raw_behs, label, stats):
         raise Infra("evmframes -mem returned %d outcomes for %d programs" % (n, len(raw_behs)))
     for sig, ent in sorted(found.items()):
         b, obs, what = ent["first"]
-        rp = ctx.save_replay("returndata-%s-%s.json" % (label, sig.replace(":", "-")),
+        rp = ctx.save_replay(("%s-%s.json" % (label, sig) if sig == KNOWN_C2 else "returndata-%s-%s.json" % (label, sig.replace(":", "-"))),
                              {"kind": "mem", "signature": sig, "programs_with_this_signature": ent["n"], "what": what,
                               "behaviour": b, "expected_evaluated": mem_expected(b["exp"]), "observed": obs})
         ctx.report(sig, "%s: %s (%d programs of batch %s); first: %s" % (sig, what[:1500], ent["n"], label, json.dumps(b["prog"])), rp)
